@@ -3,19 +3,28 @@
 //! output of the extracted Coq models (`ocaml/modelrun`).  One module per case kind; each exports
 //! `cli(args) -> bool`.
 mod attr;
+mod binfile;
+mod binoracle;
+mod forest;
 mod dbdump;
 mod domops;
+mod fault;
 mod rng;
 mod sched;
+mod serde17;
 mod uidgen;
 mod util;
 mod val;
 mod xmlchannel;
+mod xmlfile;
+mod xmlgen;
+mod xmloracle;
+mod xmlspecgen;
 
 fn main() {
     std::panic::set_hook(Box::new(|_| {}));
     let args: Vec<String> = std::env::args().collect();
-    let handled = xmlchannel::cli(&args) || uidgen::cli(&args) || dbdump::cli(&args) || domops::cli(&args) || sched::cli(&args) || attr::cli(&args);
+    let handled = serde17::cli(&args) || xmlfile::cli(&args) || binfile::cli(&args) || fault::cli(&args) || xmlchannel::cli(&args) || uidgen::cli(&args) || dbdump::cli(&args) || domops::cli(&args) || sched::cli(&args) || attr::cli(&args);
     if !handled {
         eprintln!("usage: rbxverif <kind>-<gen|run> ...");
         std::process::exit(2);
